@@ -27,7 +27,7 @@ EXPLANATION = (
     "whole content (F25a: undecodable bytes), single satisfiable -> 206 with exactly the bytes (F25b: suffix longer than the file), several -> multipart in request order "
     "with matching Content-Length, none satisfiable -> 416 with `bytes */size`, and never an exception; (c) small and large transport buffer sizes. Known findings keep "
     "their own rules with semantic construct labels: F25c (several ranges, none satisfiable -> ValueError), F25e (empty range-set -> ValueError), F25d (int() accepts "
-    "sign / underscore / blanks -> malformed header honoured), F25f (a part boundary pushing the chunk past bufferSize -> read() with a negative length -> ValueError). "
+    "sign / underscore -> malformed header honoured), F25g (white space inside a range-spec accepted; pinned by the repository's RangeTests.test_rangeWithSpace), F25f (a part boundary pushing the chunk past bufferSize -> read() with a negative length -> ValueError). "
     "Not decided: file size 0, HEAD (the Range header is ignored there), real file-system errors."
 )
 RULE_KINDS = {
@@ -488,8 +488,12 @@ def _known_empty(ctx):
 def _known_lenient(ctx):
     w = _world(ctx)
     c = b"0123456789"
-    _run_grid(ctx, w, "range/lenient-integers", Q + "File | byte positions that are not 1*DIGIT", [(c, b"bytes=+1-2"), (c, b"bytes=1_0-"), (c, b"bytes=--5"), (c, b"bytes=1 -2"), (c, b"bytes=1- 2")],
+    _run_grid(ctx, w, "range/lenient-integers", Q + "File | byte positions that are not 1*DIGIT",
+              [(c, b"bytes=+1-2"), (c, b"bytes=1-+2"), (c, b"bytes=1_0-"), (c + c, b"bytes=1_0-"), (c, b"bytes=--5"), (c, b"bytes=-+5"), (c, b"bytes=0-1,+2-3")],
               "malformed headers whose numbers int() accepts")
+    # white space inside a range-spec: RangeTests.test_rangeWithSpace of the repository pins this leniency, so it is a separate (known) construct
+    _run_grid(ctx, w, "range/lenient-whitespace", Q + "File | white space inside a range-spec", [(c, b"bytes=1 -2"), (c, b"bytes=1- 2")],
+              "headers with white space around the byte positions")
 
 
 def _known_overrun(ctx):
